@@ -313,7 +313,9 @@ def crash_enum(ctx, tool, pairs, pre_points):
             pos, name = killed_at(klog) if rc != 0 else (len(window) + 1, None)
             left = open(victim, "rb").read() if os.path.exists(victim) else None
             oth = open(other, "rb").read() if os.path.exists(other) else None
-            r = {"kind": "save-crash", "old": old_id, "new": new_id, "accepted": accepted, "syscall": s, "when": k,
+            want = new if accepted else old
+            lcode = 0 if left == old else 1 if left == b"" else 2 if left == want else 3
+            r = {"kind": "save-crash", "old": old_id, "new": new_id, "accepted": accepted, "syscall": s, "when": k, "left_code": lcode,
                  "pos": pos, "window": window, "killed": rc != 0, "left": classify_bytes(left, old, new if accepted else old),
                  "left_len": None if left is None else len(left), "neighbour_intact": oth == other_b,
                  "uninterrupted": "new" if new != old else "old"}
@@ -369,8 +371,10 @@ def crash_model(ctx, recs, texts):
                      "of the model (save_prims) do not describe it", {"window": r["window"], "pair": [r["old"], r["new"]]})
             return
         want.append((r, n))
-    valid = clist([cstring(t) for t, v in sorted(texts.items()) if v["valid"]])
-    items = clist(["crash_code (in_ids %s) %s \"victim\" %s %s %d" % (valid, cstring(L.MDIR), cstring(r["old"]), cstring(r["new"]), n)
+    # text ids stand for the contents, except the empty text, which the crash states compare with
+    tid = lambda t: "" if texts[t]["len"] == 0 else t
+    valid = clist([cstring(tid(t)) for t, v in sorted(texts.items()) if v["valid"]])
+    items = clist(["crash_code (in_ids %s) %s \"victim\" %s %s %d" % (valid, cstring(L.MDIR), cstring(tid(r["old"])), cstring(tid(r["new"])), n)
                    for r, n in want])
     txt = ("From Coq Require Import List String.\nImport ListNotations.\nOpen Scope string_scope.\n"
            "From BD.DagStore Require Import Model Check.\nDefinition M := Eval vm_compute in %s.\nPrint M.\n" % items)
@@ -379,19 +383,10 @@ def crash_model(ctx, recs, texts):
     if res is None or len(res) != len(want):
         ctx.fail("correspondence", "crash states of the model could not be evaluated", {"log": out[-1500:]})
         return
-    code = {"old": 0, "prefix-of-new": 1, "new": 2}
     for (r, n), m in zip(want, res):
-        obs = code.get(r["left"], 3)
-        if r["left"] == "prefix-of-new" and r["left_len"] != 0:
-            obs = 3
-        # text ids stand for the contents: an empty old text reads as code 0 in the model as well
-        if r["old"] == "T5" and obs == 1:
-            obs = 0
-        if not r["accepted"] and m == 2:
-            m = 0
-        if obs != m:
+        if r["left_code"] != m:
             ctx.fail("correspondence", "bytes left by a kill before primitive step %d of UpdateSpec differ from the model's "
-                     "crash state (impl %s, model code %d)" % (n, r["left"], m), r)
+                     "crash state (impl %s = code %d, model code %d; 0 old, 1 empty, 2 new, 3 other)" % (n, r["left"], r["left_code"], m), r)
 
 
 # ---------------------------------------------------------------------------------------------
@@ -508,9 +503,9 @@ def run(ctx, replay_cases=None):
                      "extension' on a generator name", {"name": n, "name_okb": okb})
 
     # ---- save-crash ------------------------------------------------------------------------
-    pairs = [("T1", "T2"), ("T2", "T3"), ("T1", "T6")]
+    pairs = [("T1", "T2"), ("T2", "T3"), ("T1", "T6"), ("T5", "T1"), ("T1", "T5"), ("T2", "T4")]
     if ctx.tier == "thorough":
-        pairs += [("T6", "T1"), ("T5", "T1"), ("T1", "T5"), ("T2", "T4"), ("T0", "T7")]
+        pairs += [("T6", "T1"), ("T0", "T7"), ("T6", "T3"), ("T7", "T0")]
     recs = crash_enum(ctx, tool, pairs, pre_points=6 if ctx.tier == "quick" else 400)
     ckinds = {}
     for r in recs:
